@@ -192,6 +192,12 @@ func (x *Exec) buildMsg(st *State, t *Table, typ types.Type, fields []*TField, p
 		case "bool":
 			return scBool(term)
 		default:
+			// integers read from the store are within the range of their Go type
+			if b, ok := f.Type.Underlying().(*types.Basic); ok && b.Info()&types.IsInteger != 0 {
+				if lo, hi, ok := intRange(b); ok {
+					st.assume(fmt.Sprintf("(and (<= %s %s) (<= %s %s))", lo, term, term, hi))
+				}
+			}
 			return scInt(term)
 		}
 	}
